@@ -76,12 +76,14 @@ def c07_faults(rnd, method):
 
 
 def run(pid, tier, seed, replay=None):
-    rep = vlib.Report(pid, tier, seed)
+    rep = vlib.Report(pid, tier, seed, level="fault_enumeration" if pid == "C15" else "model_checking")
     prof = PROFILE[pid]
     exe = corerun.build_core("plain")
     with vlib.Scratch("verif-" + pid) as sc:
-        # ---- model checking of the system model against the monitors
-        mc = run_model_checks(pid, tier, sc, rep)
+        # ---- model checking of the system model against the monitors (in the
+        # background while the real executions run)
+        import coremc
+        mch = coremc.start(pid, tier, sc) if not replay else None
         # ---- scripts
         if replay:
             scripts = [vlib.read(replay)]
@@ -89,7 +91,8 @@ def run(pid, tier, seed, replay=None):
             n = prof[tier]
             fg = fault_plans if pid == "C15" else (c07_faults if pid == "C07" else None)
             scripts = coregen.gen_scripts(seed, n, kinds=prof["kinds"], faultgen=fg, prefix=pid + "r")
-            scripts += gen_from_spec(pid, tier, seed, sc, rep)
+            gs, gen_total, gen_all = coremc.gen_scripts(mch, pid, tier, seed, coregen.METHODS)
+            scripts += gs
             if pid == "C01":
                 # the other object kinds of C01: signal and child-wait interests,
                 # events and raw events posted from other threads
@@ -107,6 +110,11 @@ def run(pid, tier, seed, replay=None):
         idx = corerun.script_index(scripts)
         tfs = corerun.run_scripts(exe, scripts, sc, tag="run")
         verdicts, nev = vlib.validate_traces(tfs, sc)
+        if replay:
+            mc = {"states": 0, "transitions": 0, "runs": [], "coverage": {}}
+            gen_total, gen_all = 0, False
+        else:
+            mc = coremc.collect(mch)
         if len(verdicts) != len(scripts):
             raise vlib.MachineryError("%d scripts but %d verdicts" % (len(scripts), len(verdicts)))
         mine = [pid] if pid != "C15" else list(CORE_PROPS) + ["C15"]
@@ -146,7 +154,8 @@ def run(pid, tier, seed, replay=None):
                      "non-trivial = distinct program in which at least one monitor rule of this property "
                      "had its antecedent satisfied" % (", with fault plans" if pid in ("C15", "C07") else ""),
                 rules_exercised=dict(seen_rules), ends=dict(collections.Counter(v["why"] for v in verdicts)),
-                model_checks=mc["runs"], exhaustive=False)
+                model_checks=mc["runs"], spec_generated_programs=gen_total,
+                spec_generated_all_executed=gen_all, exhaustive=False)
         if scripts:
             rep.sample({"script": scripts[0].splitlines()[:25]})
         if verdicts:
